@@ -47,6 +47,23 @@ class Run:
         # not overwrite the evidence of the real tree
         self.alt_repo = os.environ.get("VERIF_REPO", "/repo") not in ("/repo", "")
         self.workdir = os.path.join(WORK, pid if not self.alt_repo else pid + "_alt" + str(abs(hash(os.environ["VERIF_REPO"])) % 100000))
+        # two runs of the same check at the same time (quick while thorough is running) must not share a scratch
+        # directory: the owner of <workdir>.lock keeps it, a second run works in its own directory
+        os.makedirs(WORK, exist_ok=True)
+        self._lock = self.workdir + ".lock"
+        owner = None
+        try:
+            with open(self._lock) as f:
+                owner = int(f.read().strip() or 0)
+            os.kill(owner, 0)
+        except Exception:
+            owner = None
+        if owner and owner != os.getpid():
+            self.workdir = self.workdir + f"_p{os.getpid()}"
+            self._lock = None
+        else:
+            with open(self._lock, "w") as f:
+                f.write(str(os.getpid()))
         if os.path.isdir(self.workdir):
             shutil.rmtree(self.workdir, ignore_errors=True)
         os.makedirs(self.workdir, exist_ok=True)
@@ -197,6 +214,13 @@ class Run:
         print(f"# clauses: {summ}")
         for n in self.notes:
             print(f"# note: {n}")
+        if self._lock:
+            try:
+                os.unlink(self._lock)
+            except OSError:
+                pass
+        elif rc == 0:
+            shutil.rmtree(self.workdir, ignore_errors=True)      # a secondary scratch directory with nothing to replay
         return rc
 
     def write_evidence(self, wall: float, nviol: int) -> None:
